@@ -66,10 +66,14 @@ def _add_markdown_hard_break_handling(base_wrapper: LineWrapper) -> LineWrapper:
 
             cur_initial_indent = initial_indent if is_first else subsequent_indent
             wrapped_segment = base_wrapper(segment, cur_initial_indent, subsequent_indent)
-            if not wrapped_segment and not is_last:
+            if not is_last:
                 # A line holding only a hard break still needs its indent (the prefix of
-                # the enclosing quote or list item).
-                wrapped_segment = cur_initial_indent
+                # the enclosing quote or list item): an empty segment, or a segment that
+                # ends with a kept newline (after a tag) so that the backslash starts a line.
+                if not wrapped_segment:
+                    wrapped_segment = cur_initial_indent
+                elif wrapped_segment.endswith("\n"):
+                    wrapped_segment += subsequent_indent
             if is_last:
                 wrapped_segments.append(wrapped_segment)
             else:
